@@ -204,8 +204,9 @@ theorem monotone_period (p1 p2 d1 d2 : ℕ) (hle : p1 ≤ p2)
 half-way points `25000·k + 12500` are integers this is also the nearest to the exact `p / n`. -/
 theorem stm_period_nearest (p n : ℕ) (hn : n % 2 ^ 32 ≠ 0) :
     stmDivision (.periodNearest p) n = division (.periodNearest (p / (n % 2 ^ 32))) := by
+  have hn0 : n ≠ 0 := by intro h; subst h; simp at hn
   unfold stmDivision intoSamplingConfig durationDiv
-  simp only [hn, if_false, intoNearest]
+  simp only [hn, hn0, if_false, intoNearest]
 
 /-! ### one configuration, one rate -/
 
